@@ -146,20 +146,40 @@ def neg(e: ast.AST) -> ast.AST:
     return ast.copy_location(ast.UnaryOp(op=ast.Not(), operand=e), e)
 
 
+_ALWAYS_OBJECTS = {"str", "int", "float", "bool", "list", "tuple", "dict", "set", "len", "repr", "round", "abs", "min", "max", "sorted"}
+
+
 class _BoolCompare(ast.NodeTransformer):
     """S2: comparisons of a boolean with True / False, bool() of a boolean."""
 
-    def __init__(self, bools):
+    def __init__(self, bools, shadowed=frozenset()):
         self.bools = bools
         self.count = 0
+        self.shadowed = shadowed
 
     def visit_FunctionDef(self, n):
         return n
 
     visit_AsyncFunctionDef = visit_ClassDef = visit_FunctionDef
 
+    def visit_IfExp(self, n):
+        self.generic_visit(n)
+        if isinstance(n.test, ast.Constant) and isinstance(n.test.value, bool):
+            self.count += 1
+            return n.body if n.test.value else n.orelse
+        return n
+
     def visit_Compare(self, n):
         self.generic_visit(n)
+        if isinstance(n.left, ast.Constant) and all(isinstance(c, ast.Constant) for c in n.comparators):
+            v = const_eval(n)
+            if v is not _NOVALUE and isinstance(v, bool):
+                self.count += 1
+                return ast.copy_location(ast.Constant(value=v), n)      # `None is None`, `3 == 3`: decided
+        if len(n.ops) == 1 and isinstance(n.left, ast.Name) and n.left.id in _ALWAYS_OBJECTS and n.left.id not in self.shadowed and isinstance(n.comparators[0], ast.Constant) \
+                and n.comparators[0].value is None and isinstance(n.ops[0], (ast.Is, ast.IsNot)):
+            self.count += 1
+            return ast.copy_location(ast.Constant(value=isinstance(n.ops[0], ast.IsNot)), n)        # `str is None`: a builtin is never None
         if len(n.ops) == 1 and isinstance(n.comparators[0], ast.Constant) and isinstance(n.comparators[0].value, bool) and bool_typed(n.left, self.bools):
             c = n.comparators[0].value
             if isinstance(n.ops[0], (ast.Is, ast.Eq)):
@@ -753,7 +773,7 @@ def _simplify_defensive(fn: ast.AST) -> int:
         count[0] += drop_unused_locals(fn)
         count[0] += fold_known_flags(fn)
         bools = boolean_locals(fn)
-        tr = _BoolCompare(bools)
+        tr = _BoolCompare(bools, {n.id for n in ast.walk(fn) if isinstance(n, ast.Name) and isinstance(n.ctx, (ast.Store, ast.Del))} | params_of(fn))
         for i, st in enumerate(fn.body):
             fn.body[i] = tr.visit(st)
         count[0] += tr.count
@@ -2273,6 +2293,38 @@ def unroll_index_loops(fn: ast.AST) -> int:
                     setattr(st, fld, block(getattr(st, fld)))
             for h in getattr(st, "handlers", []) or []:
                 h.body = block(h.body)
+            if isinstance(st, ast.For) and not st.orelse and all(isinstance(b, (ast.Assign, ast.AugAssign, ast.Expr)) for b in st.body) and len(st.body) <= 4:
+                # a loop driven by a table of functions / names: for i, f in enumerate((g, h)): out.append(f(xs[i]))
+                it = st.iter
+                enum = isinstance(it, ast.Call) and isinstance(it.func, ast.Name) and it.func.id == "enumerate" and len(it.args) == 1 and not it.keywords
+                src = it.args[0] if enum else it
+                if isinstance(src, ast.Name) and src.id not in params_of(fn) and len(names_in(fn, src.id)[1]) == 1:
+                    d = next((x.value for x in own_nodes(fn) if plain_assign(x) == src.id), None)
+                    if isinstance(d, ast.Tuple) and len(names_in(fn, src.id)[0]) == 1:
+                        src = d
+                tnames = [n.id for n in ast.walk(st.target) if isinstance(n, ast.Name)]
+                called = any(isinstance(c, ast.Call) and isinstance(c.func, ast.Name) and c.func.id in tnames for b in st.body for c in ast.walk(b))
+                if isinstance(src, ast.Tuple) and 1 <= len(src.elts) <= 8 and all(_simple(e) for e in src.elts) and (enum or called) and called \
+                        and not any(stores_in(st.body, nm) for nm in tnames):
+                    inside = {id(x) for x in ast.walk(st)}
+                    live_after = any(isinstance(n, ast.Name) and n.id in tnames and isinstance(n.ctx, ast.Load) and id(n) not in inside for n in ast.walk(fn))
+                    if not live_after:
+                        ok = True
+                        new_stmts = []
+                        for i, e in enumerate(src.elts):
+                            m: Dict[str, ast.AST] = {}
+                            elt = ast.Tuple(elts=[ast.Constant(value=i), e], ctx=ast.Load()) if enum else e
+                            if not bind_pattern(st.target, elt, m):
+                                ok = False
+                                break
+                            for b in st.body:
+                                nb = Fold().visit(Subst(m).visit(copy.deepcopy(b)))
+                                ast.fix_missing_locations(nb)
+                                new_stmts.append(nb)
+                        if ok:
+                            out.extend(new_stmts)
+                            count[0] += 1
+                            continue
             if isinstance(st, ast.For) and not st.orelse and isinstance(st.target, ast.Name) and isinstance(st.iter, ast.Tuple) and 1 <= len(st.iter.elts) <= 8 \
                     and all(isinstance(e, ast.Constant) and type(e.value) is int for e in st.iter.elts) \
                     and all(isinstance(b, (ast.Assign, ast.AugAssign, ast.Expr)) for b in st.body) and len(st.body) <= 4 and not stores_in(st.body, st.target.id):
@@ -2389,7 +2441,7 @@ def comprehension_rules(n: ast.AST) -> Optional[ast.AST]:
     return None
 
 
-def scalarise_records(fn: ast.AST, module_assigns: Dict[str, ast.AST]) -> int:
+def scalarise_records(fn: ast.AST, module_assigns: Dict[str, ast.AST], module_tree=None) -> int:
     """S16: `p = _Point(a, b)` where `_Point = namedtuple("_Point", ("x", "y"))` is a module-level record type and p is only ever read
     as `p.x` / `p.y`: one local per field."""
     if not isinstance(fn, (ast.FunctionDef, ast.AsyncFunctionDef)):
@@ -2397,9 +2449,16 @@ def scalarise_records(fn: ast.AST, module_assigns: Dict[str, ast.AST]) -> int:
     esc = escaping_names(fn) | params_of(fn)
 
     def fields_of(ctor: ast.AST) -> Optional[List[str]]:
-        if not isinstance(ctor, ast.Name) or ctor.id not in module_assigns:
+        if not isinstance(ctor, ast.Name):
             return None
-        d = module_assigns[ctor.id]
+        d = module_assigns.get(ctor.id)
+        if d is None and module_tree is not None:
+            for cd in module_tree.body:
+                if isinstance(cd, ast.ClassDef) and cd.name == ctor.id and len(cd.bases) == 1 and not cd.keywords \
+                        and not any(isinstance(x, (ast.FunctionDef, ast.AsyncFunctionDef)) and x.name in ("__new__", "__init__", "__iter__", "__getitem__", "__getattr__", "__getattribute__") for x in cd.body):
+                    d = cd.bases[0]     # class _P(namedtuple("_P", "a b")): ... -- the record type with extra methods
+        if d is None:
+            return None
         if not (isinstance(d, ast.Call) and (isinstance(d.func, ast.Name) and d.func.id == "namedtuple" or isinstance(d.func, ast.Attribute) and d.func.attr == "namedtuple") and len(d.args) == 2 and not d.keywords):
             return None
         spec = d.args[1]
@@ -2410,18 +2469,24 @@ def scalarise_records(fn: ast.AST, module_assigns: Dict[str, ast.AST]) -> int:
         return None
     n = 0
     up = parents(fn)
+    done = set()
     for st in list(own_nodes(fn)):
         t = plain_assign(st)
-        if not t or t in esc or not isinstance(st.value, ast.Call) or st.value.keywords or any(isinstance(a, ast.Starred) for a in st.value.args):
+        if not t or t in esc or t in done or not isinstance(st.value, ast.Call) or st.value.keywords or any(isinstance(a, ast.Starred) for a in st.value.args):
             continue
         fields = fields_of(st.value.func)
         if fields is None or len(fields) != len(st.value.args) or any(isinstance(x, ast.Name) and x.id == st.value.func.id and isinstance(x.ctx, (ast.Store, ast.Del)) for x in ast.walk(fn)):
             continue
         loads, stores = names_in(fn, t)
-        if len(stores) != 1 or not loads:
+        defs_t = [x for x in own_nodes(fn) if plain_assign(x) == t]
+        # every binding of the name builds the same record type from positional arguments (then the fields can be kept apart whichever binding is live)
+        if len(stores) != len(defs_t) or not loads or not all(isinstance(x.value, ast.Call) and isinstance(x.value.func, ast.Name) and x.value.func.id == st.value.func.id and not x.value.keywords
+                                                               and len(x.value.args) == len(fields) and not any(isinstance(a, ast.Starred) for a in x.value.args) for x in defs_t):
             continue
         def unpacked(ld):
             p = up.get(id(ld))
+            if isinstance(p, ast.Call) and isinstance(p.func, ast.Name) and p.func.id == "tuple" and p.args == [ld] and not p.keywords:
+                return True         # tuple(record): the fields in order
             return isinstance(p, ast.Assign) and p.value is ld and len(p.targets) == 1 and isinstance(p.targets[0], (ast.Tuple, ast.List)) and len(p.targets[0].elts) == len(fields) \
                 and not any(isinstance(x, ast.Starred) for x in p.targets[0].elts)
         if not all(unpacked(ld) or (isinstance(up.get(id(ld)), ast.Attribute) and up[id(ld)].value is ld and up[id(ld)].attr in fields and isinstance(up[id(ld)].ctx, ast.Load)) for ld in loads):
@@ -2429,18 +2494,24 @@ def scalarise_records(fn: ast.AST, module_assigns: Dict[str, ast.AST]) -> int:
         for ld in loads:
             p = up[id(ld)]
             if unpacked(ld):
-                p.value = ast.copy_location(ast.Tuple(elts=[ast.Name(id=f"{t}__{f}", ctx=ast.Load()) for f in fields], ctx=ast.Load()), ld)
+                tup = ast.copy_location(ast.Tuple(elts=[ast.Name(id=f"{t}__{f}", ctx=ast.Load()) for f in fields], ctx=ast.Load()), ld)
+                if isinstance(p, ast.Call):
+                    replace_child(up.get(id(p)), p, tup)
+                else:
+                    p.value = tup
                 continue
             replace_child(up.get(id(p)), p, ast.copy_location(ast.Name(id=f"{t}__{p.attr}", ctx=ast.Load()), p))
-        new = [ast.copy_location(ast.Assign(targets=[ast.Name(id=f"{t}__{f}", ctx=ast.Store())], value=a), st) for f, a in zip(fields, st.value.args)]
-        parent = up.get(id(st))
-        for fld in ("body", "orelse", "finalbody"):
-            lst = getattr(parent, fld, None)
-            if isinstance(lst, list) and st in lst:
-                i = lst.index(st)
-                lst[i:i + 1] = new
-        for x in new:
-            ast.fix_missing_locations(x)
+        for dst in defs_t:
+            new = [ast.copy_location(ast.Assign(targets=[ast.Name(id=f"{t}__{f}", ctx=ast.Store())], value=a), dst) for f, a in zip(fields, dst.value.args)]
+            parent = up.get(id(dst))
+            for fld in ("body", "orelse", "finalbody"):
+                lst = getattr(parent, fld, None)
+                if isinstance(lst, list) and dst in lst:
+                    i = lst.index(dst)
+                    lst[i:i + 1] = new
+            for x in new:
+                ast.fix_missing_locations(x)
+        done.add(t)
         n += 1
         up = parents(fn)
     return n
@@ -2467,6 +2538,13 @@ def fold_dict_building(fn: ast.AST) -> int:
                 h.body = block(h.body)
             prev = out[-1] if out else None
             d = plain_assign(prev) if prev is not None else None
+            if d and d not in esc and isinstance(prev.value, ast.List) and not any(isinstance(x, ast.Starred) for x in prev.value.elts) \
+                    and isinstance(st, ast.Expr) and isinstance(st.value, ast.Call) and isinstance(st.value.func, ast.Attribute) and st.value.func.attr == "append" \
+                    and isinstance(st.value.func.value, ast.Name) and st.value.func.value.id == d and len(st.value.args) == 1 and not st.value.keywords \
+                    and not any(isinstance(n, ast.Name) and n.id == d for n in ast.walk(st.value.args[0])) and len(prev.value.elts) < 16:
+                prev.value.elts.append(st.value.args[0])        # xs = [..] ; xs.append(v)   ->   xs = [.., v]
+                count[0] += 1
+                continue
             if d and d not in esc and isinstance(prev.value, ast.Dict) and all(isinstance(k, ast.Constant) for k in prev.value.keys):
                 have = {repr(k.value) for k in prev.value.keys}
                 pairs = None
